@@ -206,7 +206,7 @@ CRASH_SIGNALS = (4, 6, 7, 8, 11)
 
 class HarnessCrash(Exception):
     def __init__(self, sig, args):
-        super().__init__(f"harness killed by signal {sig}: {' '.join(args)}")
+        super().__init__(f"harness died (signal / exit code {sig}): {' '.join(args)}")
         self.sig = sig
         self.args_ = args
 
@@ -231,7 +231,9 @@ def run_harness(args, timeout=1500, env=None):
             if crashed:
                 st["crashed_histories"] = [list(c) for c in crashed]
             return st
-        if -rc in CRASH_SIGNALS:
+        if -rc in CRASH_SIGNALS or rc == 101:
+            # 101: the driver itself panicked, on the clean tree that never happens: a library call it unwraps failed
+            rc = -101 if rc == 101 else rc
             log(out[-1500:])
             pos = None
             if "VERIF_PROGRESS_FILE" in e and os.path.exists(e["VERIF_PROGRESS_FILE"]):
@@ -240,7 +242,7 @@ def run_harness(args, timeout=1500, env=None):
                 except ValueError:
                     pos = None
             if pos and len(pos) == 2 and not any(c[0] == pos[0] for c in crashed):
-                log(f"[harness] killed by signal {-rc} during operation {pos[1]} of history {pos[0]}: recorded as a Crash event, running the rest again")
+                log(f"[harness] died (signal / exit code {-rc}) during operation {pos[1]} of history {pos[0]}: recorded as a Crash event, running the rest again")
                 crashed.append((pos[0], pos[1], -rc))
                 continue
             raise HarnessCrash(-rc, args)
@@ -265,7 +267,7 @@ def gen_and_validate(jobs, module="TraceMain.tla", parallel=8):
             open(prefix + ".hist.json", "w").write("[]")
             st = dict(histories=1, schedules=1, events=0, builds_ok=0, builds_err=0, panics=0, nontrivial_builds=0, distinct_forests=0, first_no=0,
                       observations=0, kill_points=0, threads=1)
-            v = dict(h=0, k=0, line=0, prop="*", conj=f"process_killed_by_signal_{hc.sig}_in_driver_{job['args'][0]}", ev="Crash")
+            v = dict(h=0, k=0, line=0, prop="*", conj=f"process_died_code_{hc.sig}_in_driver_{job['args'][0]}", ev="Crash")
             if job.get("kind") == "sched":
                 st = dict(histories=1, events=0, builds_ok=0, builds_err=0, panics=0, nontrivial_builds=0, distinct_forests=0, first_no=0, exhaustive_configs=0, configs=0)
             return dict(job=job, stats=st, viols=[v], drifts=[], lines=0, wall=0.0, prefix=prefix, crashed=True)
